@@ -1864,7 +1864,13 @@ class Signature:
                 param.annotation, SequenceValue
             ):
                 simple_members = param.annotation.get_member_sequence()
-                if simple_members is None:
+                # The members become positional-only parameters, which may only follow
+                # positional-only parameters without defaults; otherwise keep *args.
+                can_expand = all(
+                    prev.kind is ParameterKind.POSITIONAL_ONLY and prev.default is None
+                    for prev in param_dict.values()
+                )
+                if simple_members is None or not can_expand:
                     param_dict[param.name] = param
                     i += 1
                 else:
